@@ -36,6 +36,15 @@ def defloc(ctx, dotted):
     return f"{ctx.program.relpath(m.path)}:{node.lineno} ({name})"
 
 
+def _havoced(x):
+    """does the extracted value depend on symbols that stand for something the interpreter could not follow (havoc)?  A mismatch involving
+    them says nothing about the program."""
+    try:
+        return any(a.kind == "sym" and str(a.args[0]).startswith("havoc") for a in alg.atoms_of(lift(x), deep=True))
+    except Exception:
+        return False
+
+
 def ident(ctx, rule, construct, lhs, rhs, loc="", what=""):
     """Obligation lhs == rhs decided by normalisation; refutations are confirmed by a numeric witness."""
 
@@ -47,6 +56,8 @@ def ident(ctx, rule, construct, lhs, rhs, loc="", what=""):
         if verdict == "equal":
             return True, ""
         if verdict == "differ":
+            if _havoced(a) and not _havoced(b):
+                return "inconclusive", f"the extracted value depends on an operation the interpreter could not follow (havoc): {short(a)}"
             return False, f"{what + ': ' if what else ''}extracted {short(a)}  !=  expected {short(b)}  (witness {info})"
         return "inconclusive", f"{info} ({short(lift(a) - lift(b))})"
 
@@ -62,10 +73,26 @@ def ident_arr(ctx, rule, construct, A, B, loc="", what=""):
         a, b = np.asarray(A, dtype=object), np.asarray(B, dtype=object)
         if a.shape != b.shape:
             return False, f"{what}: shape {a.shape} != expected {b.shape}"
+        # pass 1, cheap (numeric witnesses and a small algebra budget) over ALL cells: a definite difference anywhere takes precedence over a
+        # cell that cannot be decided; pass 2 spends the full budget on the cells pass 1 left open and stops at the first one still open
+        pending, todo = None, []
         for i in np.ndindex(*a.shape):
             x, y = a[i], b[i]
             if isinstance(x, Opaque) or isinstance(y, Opaque):
-                return "inconclusive", f"opaque cell {i}"
+                pending = pending or ("inconclusive", f"opaque cell {i}")
+                continue
+            verdict, info = alg.decide(x, y, budget=20_000, seconds=3)
+            if verdict == "differ":
+                if _havoced(x) and not _havoced(y):
+                    pending = pending or ("inconclusive", f"cell {list(i)} depends on an operation the interpreter could not follow (havoc): {short(x)}")
+                    continue
+                return False, f"{what + ': ' if what else ''}cell {list(i)}: extracted {short(x)} != expected {short(y)} (witness {info})"
+            if verdict != "equal":
+                todo.append(i)
+        if pending is not None:
+            return pending
+        for i in todo:
+            x, y = a[i], b[i]
             verdict, info = alg.decide(x, y)
             if verdict == "differ":
                 return False, f"{what + ': ' if what else ''}cell {list(i)}: extracted {short(x)} != expected {short(y)} (witness {info})"
@@ -107,6 +134,8 @@ class Abort(Exception):
     """Raised after a failing obligation has been recorded when the rest of the check cannot proceed."""
 
 
+# functions whose documented interface is to update their array arguments in place (and return them)
+MUTATING_BY_CONTRACT = {"pydrex.utils.apply_gbs"}
 _EXPLORED: set = set()
 _HISTORY_DONE: set = set()
 
@@ -126,6 +155,16 @@ def _like(I):
     return Interp(I.program, externals=I.externals, stubs=I.stubs, cut_calls=I.cut_calls, perm_chooser=I.perm_chooser, max_depth=I.max_depth)
 
 
+def _same_value(x, y):
+    """equal as values (a cell may have been replaced by the let atom that stands for it)"""
+    try:
+        if isinstance(x, (E, int, float)) and isinstance(y, (E, int, float)):
+            return alg.decide(x, y)[0] == "equal"
+    except Exception:
+        pass
+    return False
+
+
 def call_public(ctx, I, dotted, *args, **kw):
     """Interpret a public function on abstract inputs.  If the interpreted code raises on the generic
     path, that is itself a violation (the function raises for generic input)."""
@@ -138,6 +177,15 @@ def call_public(ctx, I, dotted, *args, **kw):
     u0_ = len(I.unsupported_log)
     try:
         out = I.call(f, tuple(args), kw)
+        if dotted not in MUTATING_BY_CONTRACT:
+            changed = [i for i, (a, b) in enumerate(zip(args, saved[0])) if isinstance(a, np.ndarray) and isinstance(b, np.ndarray)
+                       and (a.shape != b.shape or any(keyof(x) != keyof(y) and not _same_value(x, y) for x, y in zip(a.flat, b.flat)))]
+            if changed:
+                rule_m = f"{ctx.prop}.args-untouched"
+                if rule_m not in ctx.rules_doc:
+                    ctx.rule(rule_m, "a public function that returns its result leaves the arrays it was given as they are (a caller that keeps using its "
+                                     "arrays -- e.g. pole vectors after projecting them -- would otherwise see them rescaled)")
+                ctx.ob(rule_m, dotted.split(".")[-1], False, f"argument array(s) {changed} were modified in place", defloc(ctx, dotted))
         arg_ids = {id(a) for a in list(args) + list(kw.values()) if isinstance(a, np.ndarray)}
         inherited = [e for e in I.trace[t0_:] if e.kind == "dtype-from" and e.data and e.data[0] in arg_ids]
         if inherited:
